@@ -251,6 +251,13 @@ def _find_files(env, filter, seen_dirs=None):
         if _path.isdir(p, env.base_dirs):
             yield p, filter.match(p)
     for p in paths:
+        if seen_dirs is not None and not _path.exists(p, env.base_dirs):
+            # The base of this pattern doesn't exist (yet). Watch the nearest
+            # directory above it that does, so that we notice when it appears.
+            parent = p
+            while parent.suffix and not _path.isdir(parent, env.base_dirs):
+                parent = parent.parent()
+            seen_dirs.append(parent)
         for base, dirs, files in _path.walk(p, env.base_dirs):
             if seen_dirs is not None:
                 seen_dirs.append(base)
